@@ -775,6 +775,10 @@ impl<'a> UdpNhcRepr {
             // As for any UDP datagram, a computed checksum of zero is transmitted as all-ones:
             // zero means "no checksum", which IPv6 does not allow.
             packet.set_checksum(if chk_sum == 0 { 0xffff } else { chk_sum });
+        } else {
+            // make sure we get a consistently zeroed checksum (and a cleared C flag),
+            // instead of whatever the buffer contained before
+            packet.set_checksum(0);
         }
     }
 }
